@@ -64,7 +64,8 @@ def parse_sgrid(ds):
 
     sgrid_ax_names = sgrid.get_all_axes(ds)
     parsed_coords = {}
-    for ax_name in sgrid_ax_names:
+    # the SGRID axes are always named X, Y, Z: keep that order (a set has no stable order)
+    for ax_name in sorted(sgrid_ax_names):
         parsed_coords[ax_name] = sgrid.get_axis_positions_and_coords(ds, ax_name)
 
     sgrid_grid_kwargs = {"coords": parsed_coords}
@@ -90,7 +91,9 @@ def parse_comodo(ds):
 
     comodo_ax_names = comodo.get_all_axes(ds)
     parsed_coords = {}
-    for ax_name in comodo_ax_names:
+    # keep the order in which the axes first appear among the dataset's dimensions (a set has no stable order)
+    ordered_ax_names = dict.fromkeys(ds[d].attrs.get("axis") for d in ds.dims)
+    for ax_name in [ax for ax in ordered_ax_names if ax in comodo_ax_names]:
         parsed_coords[ax_name] = comodo.get_axis_positions_and_coords(ds, ax_name)
 
     comodo_grid_kwargs = {"coords": parsed_coords}
